@@ -46,6 +46,8 @@ def cases(draw):
              "after_pending": draw(st.sampled_from([0, 0, 1]))}
         if oc == "success":
             e["payload"] = draw(st.text(max_size=6)) if kind == "cb" else draw(G.json_values)
+            if draw(st.integers(0, 5)) == 0:
+                e["no_payload"] = True  # completed successfully without any result
         else:
             if draw(st.integers(0, 3)) == 0:
                 e["no_error"] = True
